@@ -15,6 +15,8 @@ package sqlx_test
 //     the result set is served by sqlmock, QueryRow(s)(Partial) is called through a Conn, a
 //     transaction session and a prepared statement, and the destination is compared with the
 //     set of outcomes the specification allows.
+//   - histories of spec/RowMapHistGen.tla ("hquery"): sequences of queries into declared types that
+//     print the same name (hist_test.go).
 //
 // The driver only compares: every expected value comes from the specification's JSON.
 
@@ -24,6 +26,7 @@ import (
 	"database/sql/driver"
 	"errors"
 	"fmt"
+	"math/rand"
 	"reflect"
 	"strconv"
 	"strings"
@@ -1059,15 +1062,25 @@ func TestVerifC11(t *testing.T) {
 	}
 	defer rep.Close()
 	shard, shards := kit.EnvInt("VERIF_SHARD", 0), kit.EnvInt("VERIF_SHARDS", 1)
+	// the cases of this shard run in one process in an order shuffled by VERIF_SEED: a case is judged by
+	// itself, so neither the specification's enumeration order nor what ran before may matter (a destination
+	// type recurs in many cases: reflect.StructOf returns the same type for the same shape, and the declared
+	// types of hist_test.go are queried by thousands of histories)
+	var mine []kit.Case
 	for _, c := range cases {
-		if c.Index%shards != shard || len(c.Steps) == 0 {
-			continue
+		if c.Index%shards == shard && len(c.Steps) > 0 {
+			mine = append(mine, c)
 		}
+	}
+	rand.New(rand.NewSource(kit.Seed()*7919+int64(shard))).Shuffle(len(mine), func(i, j int) { mine[i], mine[j] = mine[j], mine[i] })
+	for _, c := range mine {
 		switch kit.Str(c.Steps[0]["op"]) {
 		case "call":
 			rep.Put(runTxCase(c, rep))
 		case "query":
 			rep.Put(runRowMapCase(c, rep))
+		case "hquery":
+			rep.Put(runHistCase(c, rep))
 		default:
 			rep.Put(infra(c, "unknown case kind "+kit.Canon(c.Steps[0])))
 		}
